@@ -122,11 +122,9 @@ class Function:
                     if cmd[0] == "exit":
                         return
                     if cmd[0] == "cancel":
-                        try:
-                            cmd[1].cancel()
-                            await cmd[1]
-                        except asyncio.CancelledError:
-                            pass
+                        # don't wait for the task to finish: its done callbacks may suspend, and the
+                        # cancellations queued behind it must not be held up
+                        cmd[1].cancel()
                     else:
                         _LOGGER.error("task_reaper: unknown command %s", cmd[0])
                 except asyncio.CancelledError:
